@@ -141,7 +141,8 @@ SPECIALS = [np.nan, np.inf, -np.inf, 5e-324, -0.0, 2.2250738585072014e-308 / 4,
 def gen_model(seed, ndims=3, nlevels=None, nfields=None, base=None, bf=4, maxsz=None,
               origin=None, aniso=True, names=None, payload="random", nfiles=None,
               shuffle=True, full_refine=False, sizes=None, base_blocks=(2, 4), time=None,
-              maxfiles=4, refine_frac=None, data_seed=None, uneven=False, free_regions=False, region_unit=None):
+              maxfiles=4, refine_frac=None, data_seed=None, uneven=False, free_regions=False, region_unit=None,
+              length_scale=None, file_id_base=0):
     """payload: random | special | affine | tagged | positive | ramp
     sizes: when given, 'segments' tiling with box extents from that list (e.g. [16,24])"""
     rng = random.Random(seed)
@@ -175,6 +176,9 @@ def gen_model(seed, ndims=3, nlevels=None, nfields=None, base=None, bf=4, maxsz=
         dx0 = [float(v) for v in aniso]
     else:
         dx0 = [0.125] * ndims
+    if length_scale:        # the same geometry in other units (micrometre cells: 1e-6, nanometre cells: 1e-9)
+        m.geo_low = [v * length_scale for v in m.geo_low]
+        dx0 = [v * length_scale for v in dx0]
     m.dx = [[dx0[d] / 2 ** lv for d in range(ndims)] for lv in range(m.nlevels)]
     m.geo_high = [m.geo_low[d] + dx0[d] * base[d] for d in range(ndims)]
     m.time = float(time) if time is not None else rng.choice(
@@ -272,15 +276,15 @@ def gen_model(seed, ndims=3, nlevels=None, nfields=None, base=None, bf=4, maxsz=
                        for bi, b in enumerate(m.boxes[lv])])
     m.layout = []
     for lv in range(m.nlevels):
-        m.layout.append(_layout(rng, len(m.boxes[lv]), nfiles, shuffle, maxfiles))
+        m.layout.append(_layout(rng, len(m.boxes[lv]), nfiles, shuffle, maxfiles, file_id_base))
     return m
 
 
-def _layout(rng, nb, nfiles=None, shuffle=True, maxfiles=4):
+def _layout(rng, nb, nfiles=None, shuffle=True, maxfiles=4, id_base=0):
     nf = nfiles if nfiles is not None else rng.randint(1, max(1, min(maxfiles, nb)))
     nf = max(1, min(nf, nb))
     assign = [rng.randrange(nf) for _ in range(nb)]
-    ids = rng.sample(range(0, 40), nf)
+    ids = [id_base + v for v in rng.sample(range(0, 40), nf)]      # id_base 100000: six-digit file numbers
     order = list(range(nb))
     if shuffle:
         rng.shuffle(order)
